@@ -68,6 +68,7 @@ var c11sources = map[string]string{
 	"/libb.jet":       `{{block tag()}}[B]{{end}}`,
 	"/both.jet":       `{{import "/liba.jet"}}{{import "/libb.jet"}}both:{{yield tag()}}`,
 	"/pagea.jet":      `{{import "/liba.jet"}}a:{{yield tag()}}`,
+	"/row.jet":        `{{.Label}}#{{.N}}`,
 	"/badinc.jet":     `x<{{include "/unparsable.jet"}}>`,
 	"/unparsable.jet": `u{{ if }}v`,
 }
@@ -83,6 +84,25 @@ func c11vars() jet.VarMap {
 	v.Set("xs", []string{"a", "b", "c"}).Set("ys", []int{1, 2}).Set("m", map[string]int{"k": 1}).Set("ch", ch).Set("empty", []int{})
 	v.Set("yieldfn", func() string { runtime.Gosched(); return "" })
 	return v
+}
+
+// two distinct struct types that print the same name (declared locally in two functions) with their fields in another
+// order: what one execution learnt about the first must not be applied to the second
+func c11rowA() interface{} {
+	type row struct {
+		Label string
+		N     int
+	}
+	return row{"report", 3}
+}
+
+func c11rowB() interface{} {
+	type row struct {
+		N     int
+		Extra bool
+		Label string
+	}
+	return row{99, true, "other"}
 }
 
 func c11exec(t *jet.Template, tag string) string { return c11execData(t, c11fresh(tag)) }
@@ -305,6 +325,16 @@ func c11run(c *fw.Ctx, idx int) {
 						mu.Lock()
 						mismatches = append(mismatches, fmt.Sprintf("%s concurrently rendered %q, alone it renders %q", name, got, want[name]))
 						mu.Unlock()
+					}
+				case k < 9 && i%7 == 3: // same-named struct types
+					local["Execute over same-named distinct struct types"]++
+					if t, err := set.GetTemplate("/row.jet"); err == nil {
+						a, b := c11execData(t, c11rowA()), c11execData(t, c11rowB())
+						if a != "report#3" || b != "other#99" {
+							mu.Lock()
+							mismatches = append(mismatches, fmt.Sprintf("/row.jet over two struct types both named row rendered %q and %q, want \"report#3\" and \"other#99\"", a, b))
+							mu.Unlock()
+						}
 					}
 				case k < 11: // first-time loads colliding on the same name
 					f := rr.Intn(nfresh)
